@@ -327,10 +327,10 @@ class Gen:
                 same = [j for j in keyed if j != i and args[j - 1]["grp"] == a["grp"]]
                 if same and r.random() < 0.15:
                     a["req"] = r.sample(same, 1)
-                    a["cspell"] = r.choice([0, 0, 1, 2])
+                    a["cspell"] = r.choice([0, 0, 1, 2, 3])
                 elif same and r.random() < 0.15:
                     a["exc"] = r.sample(same, min(len(same), r.choice([1, 1, 2])))
-                    a["cspell"] = r.choice([0, 0, 1, 2])
+                    a["cspell"] = r.choice([0, 0, 1, 2, 3])
         if len(keyed) >= 2 and r.random() < 0.4:
             g = r.randrange(groups)
             members = [j for j in keyed if args[j - 1]["grp"] == g and not args[j - 1]["mand"] and not args[j - 1]["depr"]]
@@ -353,7 +353,7 @@ class Gen:
                     if len(sel) < 2:
                         return
                     sel = sel[:2]
-                cfgd["hcons"].append({"k": k, "args": sorted(sel), "cspell": r.choice([0, 0, 1, 2]), "grp": g})
+                cfgd["hcons"].append({"k": k, "args": sorted(sel), "cspell": r.choice([0, 0, 1, 2, 3, 3]), "grp": g})
 
     # ------------------------------------------------------------ values
     def good_value(self, a):
@@ -426,9 +426,12 @@ class Gen:
             # dash, the control characters ! ( ), list separators, quotes, backslash, bytes above 127 (never as first character)
             s = s[0] + "".join(r.choice(" \t-!(),;:+/|'\"\\#@\xe4\xff") if r.random() < 0.5 else ch for ch in s[1:])
         if n >= 2 and r.random() < 0.12:
-            # an '=' inside the value ("--key=a=b": the key ends at the FIRST '='); never as first character
+            # an '=' inside the value ("--key=a=b": the key ends at the FIRST '=')
             k = r.randint(1, n - 1)
             s = s[:k] + "=" + s[k + 1:]
+        if a["kind"] == "str" and "l" in a and self.exotic and r.random() < 0.06:
+            # ... and as first character of the value: "-f=x" is the value "=x" glued to the short key, "--file==x" the value "=x"
+            s = "=" + s
         return s
 
     def bad_value(self, a):
